@@ -202,4 +202,40 @@ theorem reaccept_restarts (N : List Name) (hN : N.Pairwise (· < ·)) (f : Nat) 
     cases h2
     exact ⟨rfl, j, cs', rfl, by omega, hj3⟩
 
+/-- the states the retry loop of `ComplexList::matches` passes through: each step is a `tryNext` that answered NEWCHOICE,
+or MATCHALL with `hitMultNodes` failing -/
+inductive RetryReach (combo : Bool) : ST → Ents → ST → Ents → Prop
+  | refl (h : ST) (e : Ents) : RetryReach combo h e h e
+  | step {h : ST} {e : Ents} {h1 : ST} {e1 : Ents} {h2 : ST} {e2 : Ents} (g : Nat) (r : MT) :
+      tryNext g h e = .ok (h1, e1, r) → (r = .newchoice ∨ (r = .all ∧ hitMultNodes combo h1 e1 = false)) →
+      RetryReach combo h1 e1 h2 e2 → RetryReach combo h e h2 e2
+
+/-- a refusal by the retry loop: the loop reached a state on which `tryNext` answered NOMORE, leaving every steppable
+OrList at LISTEND -/
+theorem retry_false_last (combo : Bool) : ∀ (f : Nat) (head : ST) (es : Ents), retry f combo head es = .ok false →
+    ∃ (head' : ST) (es' : Ents) (g : Nat) (r : ST × Ents × MT), RetryReach combo head es head' es' ∧
+      tryNext g head' es' = .ok r ∧ r.2.2 ≠ .all ∧ r.2.2 ≠ .newchoice ∧ Exh r.1 := by
+  intro f
+  induction f with
+  | zero => intro head es h; simp [retry] at h
+  | succ f ih =>
+    intro head es h
+    simp only [retry] at h
+    obtain ⟨⟨head1, es1, r⟩, h1, h2⟩ := bind_ok' h
+    simp only at h2
+    split at h2
+    · rename_i hall
+      split at h2
+      · cases h2
+      · rename_i hhit
+        obtain ⟨h', e', g, r', R, q⟩ := ih head1 es1 h2
+        exact ⟨h', e', g, r', .step f r h1 (Or.inr ⟨hall, by simpa using hhit⟩) R, q⟩
+    · rename_i hna
+      split at h2
+      · rename_i hnew
+        obtain ⟨h', e', g, r', R, q⟩ := ih head1 es1 h2
+        exact ⟨h', e', g, r', .step f r h1 (Or.inl hnew) R, q⟩
+      · rename_i hnn
+        exact ⟨head, es, f, _, .refl head es, h1, hna, hnn, (nomore_exh f).1 head es _ h1 hna hnn⟩
+
 end StepModel.Complex.Match
